@@ -142,8 +142,9 @@ Qed.
 
 Lemma bounded_nodup_length : forall n l, NoDup l -> (forall i, In i l -> (i < n)%nat) -> (length l <= n)%nat.
 Proof.
-  intros n l Hnd Hb. rewrite <- (seq_length n 0). apply NoDup_incl_length; [assumption|].
-  intros i Hi. apply in_seq. specialize (Hb i Hi). lia.
+  intros n l Hnd Hb.
+  assert (X : incl l (seq 0 n)) by (intros i Hi; apply in_seq; specialize (Hb i Hi); lia).
+  pose proof (NoDup_incl_length Hnd X) as Y. now rewrite seq_length in Y.
 Qed.
 
 Lemma full_nodup_all : forall n l, NoDup l -> (forall i, In i l -> (i < n)%nat) -> length l = n ->
@@ -249,8 +250,9 @@ Proof.
   destruct (vinv_run n l _ Hn Hb (vinv_init n Hn)) as (Hnd & Hbd & Hr & Hf & Hlen & Hw & Hinv).
   pose proof (bounded_nodup_length n _ Hnd Hbd) as Hle.
   assert (Hge : (n <= length (vnot (vrun n (vinit (Z.of_nat n)) l)))%nat).
-  { rewrite <- (seq_length n 0). apply NoDup_incl_length; [apply seq_NoDup|].
-    intros i Hi. apply in_seq in Hi. apply Hall. lia. }
+  { assert (X : incl (seq 0 n) (vnot (vrun n (vinit (Z.of_nat n)) l))).
+    { intros i Hi. apply in_seq in Hi. apply Hall. lia. }
+    pose proof (NoDup_incl_length (seq_NoDup n 0) X) as Y. now rewrite seq_length in Y. }
   rewrite Hinv. rewrite He in Hw. destruct (vw _ =? 0) eqn:E0; [reflexivity|]. apply Z.eqb_neq in E0. lia.
 Qed.
 
@@ -287,82 +289,94 @@ Proof. intros [x|] c; simpl; discriminate. Qed.
 Lemma mark_zero : forall f c, c <> 0 -> mark f c = Some 0 -> f = Some 0.
 Proof. intros [x|] c Hc H; simpl in H; [assumption | inversion H; congruence]. Qed.
 
+Ltac csplit := unfold cinv; cbn [cdata cvert cfin cflush cbound clive cfired];
+  split; [|split; [|split; [|split; [|split; [|split; [|split]]]]]].
+
+Lemma fin_fires_false : forall w, w <> 0 -> closure_finish_fires w = false.
+Proof. intros w H. destruct (closure_finish_fires w) eqn:E; [apply closure_finish_fires_spec in E; contradiction | reflexivity]. Qed.
+Lemma fin_fires_true : forall w, w = 0 -> closure_finish_fires w = true.
+Proof. intros w H. now apply closure_finish_fires_spec. Qed.
+Lemma flush_fires_false : forall w, w <> 0 -> closure_flush_fires w = false.
+Proof. intros w H. destruct (closure_flush_fires w) eqn:E; [apply closure_flush_fires_spec in E; contradiction | reflexivity]. Qed.
+Lemma flush_fires_true : forall w, w = 0 -> closure_flush_fires w = true.
+Proof. intros w H. now apply closure_flush_fires_spec. Qed.
+
 Lemma cinv_step : forall s e s', cinv s -> cstep s e = Some s' -> cinv s'.
 Proof.
   intros s e s' (Hb & Hl & Hd & Hv & Hfl & Hff & Hf0 & Hfd) Hst.
   destruct e as [rdy | | | | |]; cbn [cstep] in Hst.
   - (* CBind *)
-    destruct (cfired s) eqn:Ef; [discriminate|].
-    destruct rdy; inversion Hst; subst s'; clear Hst; unfold cinv, data_sub; cbn; rewrite ?Ef; cbn.
-    + assert (E : closure_finish_fires (cdata s + 1 - 1) = false).
-      { destruct (closure_finish_fires (cdata s + 1 - 1)) eqn:E; [|reflexivity]. apply closure_finish_fires_spec in E. lia. }
-      rewrite E. repeat split; try lia; try assumption; try discriminate.
-      intro H. destruct (Hf0 H) as [X _]. discriminate.
-    + repeat split; try lia; try assumption; try discriminate.
-      intro H. destruct (Hf0 H) as [X _]. discriminate.
+    destruct (cfired s) eqn:Ef; [discriminate|]. simpl in Hfl.
+    assert (Hn0 : cfin s <> Some 0) by (intro H; destruct (Hf0 H) as [X _]; discriminate).
+    destruct rdy; inversion Hst; subst s'; clear Hst; unfold data_sub; csplit; rewrite ?Ef; cbn [andb]; try lia; try assumption;
+      try discriminate.
+    + rewrite fin_fires_false by lia. intro H; contradiction.
+    + intro H; contradiction.
   - (* CDataRel *)
     destruct (0 <? cbound s) eqn:Eb; [|discriminate]. apply Z.ltb_lt in Eb.
-    inversion Hst; subst s'; clear Hst. unfold cinv, data_sub; cbn.
-    repeat split; try lia; try assumption.
+    inversion Hst; subst s'; clear Hst. unfold data_sub; csplit; try lia; try assumption.
     + intro H. specialize (Hff H). destruct (closure_finish_fires (cdata s - 1)); [apply mark_some | assumption].
     + destruct (closure_finish_fires (cdata s - 1)) eqn:E.
-      * apply closure_finish_fires_spec in E. destruct (cfired s); [reflexivity | lia].
-      * apply Hf0. assumption.
-    + destruct (closure_finish_fires (cdata s - 1)) eqn:E.
-      * apply closure_finish_fires_spec in E. destruct (cfired s); lia.
+      * apply closure_finish_fires_spec in E. intros _. destruct (cfired s); [split; [reflexivity | lia] | lia].
       * intro H. destruct (Hf0 H). lia.
     + intros Hf Hz. destruct (closure_finish_fires (cdata s - 1)) eqn:E; [apply mark_some|].
-      assert (closure_finish_fires (cdata s - 1) = true) by (apply closure_finish_fires_spec; rewrite Hd, Hf; lia). congruence.
+      rewrite fin_fires_true in E by (rewrite Hd, Hf; lia). discriminate.
   - (* CVAdd *)
     destruct (negb (cfired s) || (0 <? clive s)) eqn:G; [|discriminate].
-    inversion Hst; subst s'; clear Hst. unfold cinv; cbn.
+    inversion Hst; subst s'; clear Hst.
     assert (Hz : (clive s + 1 =? 0) = false) by (apply Z.eqb_neq; lia).
-    rewrite Hz, andb_false_r. repeat split; try lia; try assumption; try discriminate.
+    assert (Hfl0 : cflush s = 0%nat).
+    { rewrite Hfl. destruct (cfired s) eqn:Ef; [|reflexivity]. simpl in G. apply Z.ltb_lt in G.
+      assert ((clive s =? 0) = false) by (apply Z.eqb_neq; lia). now rewrite H. }
+    csplit; try lia; try assumption.
+    + rewrite Hz, andb_false_r. assumption.
   - (* CVSub *)
     destruct (0 <? clive s) eqn:El; [|discriminate]. apply Z.ltb_lt in El.
-    inversion Hst; subst s'; clear Hst. unfold cinv, vert_sub; cbn.
+    inversion Hst; subst s'; clear Hst. unfold vert_sub.
     assert (Hz : (clive s =? 0) = false) by (apply Z.eqb_neq; lia).
     rewrite Hz, andb_false_r in Hfl.
     destruct (closure_flush_fires (cvert s - 1)) eqn:E.
     + apply closure_flush_fires_spec in E.
       assert (Hfd' : cfired s = true) by (destruct (cfired s); [reflexivity | lia]).
       assert (Hl1 : clive s = 1) by (rewrite Hfd' in Hv; lia).
-      rewrite Hfd', Hl1; cbn. rewrite Hfl. repeat split; try lia; try assumption.
+      csplit; rewrite ?Hfd', ?Hl1; cbn [andb]; try lia; try assumption.
+      * rewrite Hfl. reflexivity.
       * intros _. apply mark_some.
-      * intro H. apply mark_zero in H; [|lia]. apply Hf0 in H. tauto.
-      * intro H. apply mark_zero in H; [|lia]. apply Hf0 in H. tauto.
+      * intro H. apply mark_zero in H; [|lia]. apply Hf0 in H. rewrite Hfd' in H. assumption.
       * intros _ _. apply mark_some.
-    + assert (Hne : cvert s - 1 <> 0) by (intro X; apply closure_flush_fires_spec in X; congruence).
+    + assert (Hne : cvert s - 1 <> 0) by (intro X; rewrite flush_fires_true in E by assumption; discriminate).
       assert (Hz' : cfired s && (clive s - 1 =? 0) = false).
       { destruct (cfired s) eqn:Ef; [|reflexivity]. simpl. apply Z.eqb_neq. lia. }
-      rewrite Hz', Hfl. repeat split; try lia; try assumption; try discriminate.
+      csplit; try lia; try assumption.
+      rewrite Hz'. assumption.
   - (* CFire *)
     destruct (cfired s) eqn:Ef; [discriminate|].
-    inversion Hst; subst s'; clear Hst. unfold cinv, vert_sub, data_sub; cbn.
-    rewrite andb_false_l in Hfl.
+    inversion Hst; subst s'; clear Hst. unfold vert_sub, data_sub; cbn [cdata cvert cfin cflush cbound clive cfired].
+    simpl in Hfl.
+    assert (Hn0 : cfin s <> Some 0) by (intro H; destruct (Hf0 H) as [X _]; discriminate).
     destruct (closure_flush_fires (cvert s - 1)) eqn:E.
-    + apply closure_flush_fires_spec in E. assert (Hl0 : clive s = 0) by lia. rewrite Hl0; cbn. rewrite Hfl.
-      repeat split; try lia; try assumption.
+    + apply closure_flush_fires_spec in E. assert (Hl0 : clive s = 0) by lia.
+      csplit; rewrite ?Hl0; cbn [andb]; try lia; try assumption.
+      * rewrite Hfl. reflexivity.
       * intros _. apply mark_some.
       * intro H. apply mark_zero in H; [|lia].
         destruct (closure_finish_fires (cdata s - 1)) eqn:E2.
-        -- apply closure_finish_fires_spec in E2. lia.
-        -- apply Hf0 in H. destruct H. discriminate.
+        -- apply closure_finish_fires_spec in E2. split; [reflexivity | lia].
+        -- contradiction.
       * intros _ _. apply mark_some.
-    + assert (Hne : cvert s - 1 <> 0) by (intro X; apply closure_flush_fires_spec in X; congruence).
-      assert (Hz : (clive s =? 0) = false) by (apply Z.eqb_neq; lia). rewrite Hz, Hfl.
-      repeat split; try lia; try assumption; try discriminate.
+    + assert (Hne : cvert s - 1 <> 0) by (intro X; rewrite flush_fires_true in E by assumption; discriminate).
+      assert (Hz : (clive s =? 0) = false) by (apply Z.eqb_neq; lia).
+      csplit; rewrite ?Hz; cbn [andb]; try lia; try assumption.
       * destruct (closure_finish_fires (cdata s - 1)) eqn:E2.
-        -- apply closure_finish_fires_spec in E2. lia.
-        -- intro H. apply Hf0 in H. destruct H. discriminate.
+        -- apply closure_finish_fires_spec in E2. intros _. split; [reflexivity | lia].
+        -- intro H. contradiction.
       * intros _ Hz0. destruct (closure_finish_fires (cdata s - 1)) eqn:E2; [apply mark_some|].
-        assert (closure_finish_fires (cdata s - 1) = true) by (apply closure_finish_fires_spec; lia). congruence.
+        rewrite fin_fires_true in E2 by lia. discriminate.
   - (* CFail *)
     destruct (0 <? clive s) eqn:El; [|discriminate].
-    inversion Hst; subst s'; clear Hst. unfold cinv; cbn. repeat split; try lia; try assumption.
+    inversion Hst; subst s'; clear Hst. csplit; try lia; try assumption.
     + intros _. apply mark_some.
-    + intro H. apply mark_zero in H; [|lia]. apply Hf0 in H. tauto.
-    + intro H. apply mark_zero in H; [|lia]. apply Hf0 in H. tauto.
+    + intro H. apply mark_zero in H; [|lia]. apply Hf0 in H. assumption.
     + intros _ _. apply mark_some.
 Qed.
 
@@ -393,3 +407,401 @@ Qed.
 Example af_closure_example : cflush (crun cinit [CBind false; CVAdd; CFire; CDataRel; CVSub]) = 1%nat /\
                              cfin (crun cinit [CBind false; CVAdd; CFire; CDataRel; CVSub]) = Some 0.
 Proof. vm_compute. split; reflexivity. Qed.
+
+(* ======================================================================================== *)
+(* D. the engine: values = sequential evaluation, only needed vertices, data sealed once     *)
+(* ======================================================================================== *)
+Lemma eupd_same : forall e d x, eupd e d x d = Some x.
+Proof. intros. unfold eupd. now rewrite Nat.eqb_refl. Qed.
+Lemma eupd_other : forall e d x k, k <> d -> eupd e d x k = e k.
+Proof. intros e d x k H. unfold eupd. destruct (k =? d)%nat eqn:E; [apply Nat.eqb_eq in E; contradiction | reflexivity]. Qed.
+Lemma bupd_same : forall A (m : nat -> A) k x, bupd m k x k = x.
+Proof. intros. unfold bupd. now rewrite Nat.eqb_refl. Qed.
+Lemma bupd_other : forall A (m : nat -> A) k x i, i <> k -> bupd m k x i = m i.
+Proof. intros A m k x i H. unfold bupd. destruct (i =? k)%nat eqn:E; [apply Nat.eqb_eq in E; contradiction | reflexivity]. Qed.
+
+Lemma bind_outs_other : forall ds outs e d, ~ In d ds -> bind_outs e ds outs d = e d.
+Proof.
+  induction ds as [|d0 ds IH]; intros outs e d Hn; [reflexivity|]. destruct outs as [|o outs]; [reflexivity|].
+  cbn [bind_outs]. rewrite IH by (intro X; apply Hn; now right). apply eupd_other. intro X; apply Hn; left; congruence.
+Qed.
+
+Lemma bind_outs_nth : forall ds outs e j d x, NoDup ds -> nth_error ds j = Some d -> nth_error outs j = Some x ->
+  bind_outs e ds outs d = Some x.
+Proof.
+  induction ds as [|d0 ds IH]; intros outs e j d x Hnd Hd Hx; [destruct j; discriminate|].
+  destruct outs as [|o outs]; [destruct j; discriminate|]. inversion Hnd; subst. cbn [bind_outs].
+  destruct j as [|j]; cbn [nth_error] in Hd, Hx.
+  - inversion Hd; inversion Hx; subst. rewrite bind_outs_other by assumption. apply eupd_same.
+  - eapply IH; eauto.
+Qed.
+
+Lemma dep_view_ext : forall e1 e2 dp, e1 (tgt dp) = e2 (tgt dp) -> (forall c ev, cnd dp = Some (c, ev) -> e1 c = e2 c) ->
+  dep_view e1 dp = dep_view e2 dp.
+Proof.
+  intros e1 e2 dp Ht Hc. unfold dep_view, est_of. destruct (cnd dp) as [[c ev]|] eqn:E.
+  - rewrite (Hc c ev eq_refl). destruct (e2 c); [|reflexivity]. destruct (Bool.eqb _ _); [now rewrite Ht | reflexivity].
+  - now rewrite Ht.
+Qed.
+
+Lemma views_ext : forall e1 e2 l,
+  (forall dp, In dp l -> e1 (tgt dp) = e2 (tgt dp) /\ (forall c ev, cnd dp = Some (c, ev) -> e1 c = e2 c)) ->
+  views e1 l = views e2 l.
+Proof.
+  induction l as [|dp l IH]; intro H; [reflexivity|]. cbn [views].
+  destruct (H dp (or_introl eq_refl)) as [Ht Hc]. rewrite (dep_view_ext e1 e2 dp Ht Hc).
+  rewrite IH by (intros dp' Hin; apply H; now right). reflexivity.
+Qed.
+
+Lemma dep_view_mono : forall e1 e2 dp v, (forall d x, e1 d = Some x -> e2 d = Some x) ->
+  dep_view e1 dp = Some v -> dep_view e2 dp = Some v.
+Proof.
+  intros e1 e2 dp v Hm. unfold dep_view, est_of. destruct (cnd dp) as [[c ev]|].
+  - destruct (e1 c) as [x|] eqn:E1; [|discriminate]. rewrite (Hm _ _ E1).
+    destruct (Bool.eqb _ _); [|tauto]. destruct (e1 (tgt dp)) as [y|] eqn:E2; [|discriminate]. now rewrite (Hm _ _ E2).
+  - destruct (e1 (tgt dp)) as [y|] eqn:E2; [|discriminate]. now rewrite (Hm _ _ E2).
+Qed.
+
+Lemma views_mono : forall e1 e2 l vs, (forall d x, e1 d = Some x -> e2 d = Some x) ->
+  views e1 l = Some vs -> views e2 l = Some vs.
+Proof.
+  induction l as [|dp l IH]; intros vs Hm H; [assumption|]. cbn [views] in *.
+  destruct (dep_view e1 dp) as [v|] eqn:E; [|discriminate]. rewrite (dep_view_mono e1 e2 dp v Hm E).
+  destruct (views e1 l) as [vs'|] eqn:E'; [|discriminate]. now rewrite (IH vs' Hm eq_refl).
+Qed.
+
+Section EngProofs.
+Variable f : nat -> list (option Z) -> option (list (option Z)).
+
+Lemma vertex_res_ext : forall v vx e1 e2,
+  (forall dp, In dp (deps vx) -> e1 (tgt dp) = e2 (tgt dp) /\ (forall c ev, cnd dp = Some (c, ev) -> e1 c = e2 c)) ->
+  vertex_res f v vx e1 = vertex_res f v vx e2.
+Proof. intros v vx e1 e2 H. unfold vertex_res. now rewrite (views_ext e1 e2 _ H). Qed.
+
+Lemma vertex_res_mono : forall v vx e1 e2, (forall d x, e1 d = Some x -> e2 d = Some x) ->
+  vertex_res f v vx e1 <> VBlocked -> vertex_res f v vx e2 = vertex_res f v vx e1.
+Proof.
+  intros v vx e1 e2 Hm Hnb. unfold vertex_res in *. destruct (views e1 (deps vx)) as [vs|] eqn:E; [|congruence].
+  now rewrite (views_mono e1 e2 _ vs Hm E).
+Qed.
+
+Lemma ref_from_other : forall gl v e d, (forall vx, In vx gl -> ~ In d (emits vx)) -> ref_from f v gl e d = e d.
+Proof.
+  induction gl as [|vx gl IH]; intros v e d H; [reflexivity|]. cbn [ref_from].
+  rewrite IH by (intros vx' Hin; apply H; now right).
+  destruct (res_outs vx (vertex_res f v vx e)); [|reflexivity]. apply bind_outs_other. apply H. now left.
+Qed.
+
+Lemma ref_from_app : forall g1 g2 v e, ref_from f v (g1 ++ g2) e = ref_from f (v + length g1) g2 (ref_from f v g1 e).
+Proof.
+  induction g1 as [|vx g1 IH]; intros g2 v e; cbn [app ref_from length].
+  - now rewrite Nat.add_0_r.
+  - rewrite IH. f_equal. lia.
+Qed.
+
+Variable g : graph.
+Variable pre : list (nat * option Z).
+Variable targets : list nat.
+
+Definition R : env := sref f g pre.
+
+(* the graph is presented in a topological order, every data has at most one producer, inputs have none *)
+Definition wf : Prop :=
+  (forall k vx, nth_error g k = Some vx -> NoDup (emits vx)) /\
+  (forall k k' vx vx' d, nth_error g k = Some vx -> nth_error g k' = Some vx' -> In d (emits vx) -> In d (emits vx') -> k = k') /\
+  (forall d x, preset_env pre d = Some x -> forall k vx, nth_error g k = Some vx -> ~ In d (emits vx)) /\
+  (forall k vx dp, nth_error g k = Some vx -> In dp (deps vx) ->
+     forall k' vx', nth_error g k' = Some vx' -> (k <= k')%nat ->
+       ~ In (tgt dp) (emits vx') /\ (forall c ev, cnd dp = Some (c, ev) -> ~ In c (emits vx'))).
+
+(* demand: the least sets closed under "a requested target is wanted; a vertex producing a wanted data is needed;
+   a needed vertex wants its unconditional targets, its conditions, and the targets whose condition holds" *)
+Inductive Want : nat -> Prop :=
+| W_target d : In d targets -> Want d
+| W_plain v vx dp : Needed v -> nth_error g v = Some vx -> In dp (deps vx) -> cnd dp = None -> Want (tgt dp)
+| W_cond v vx dp c ev : Needed v -> nth_error g v = Some vx -> In dp (deps vx) -> cnd dp = Some (c, ev) -> Want c
+| W_est v vx dp c ev x : Needed v -> nth_error g v = Some vx -> In dp (deps vx) -> cnd dp = Some (c, ev) ->
+                         R c = Some x -> Bool.eqb (truthy x) ev = true -> Want (tgt dp)
+with Needed : nat -> Prop :=
+| N_emit v vx d : nth_error g v = Some vx -> In d (emits vx) -> Want d -> Needed v.
+
+Lemma nth_error_app_len : forall A (l1 l2 : list A) n, nth_error (l1 ++ l2) (length l1 + n) = nth_error l2 n.
+Proof. intros. rewrite nth_error_app2 by lia. f_equal. lia. Qed.
+
+Lemma sref_preset : wf -> forall d x, preset_env pre d = Some x -> R d = Some x.
+Proof.
+  intros (_ & _ & W2 & _) d x H. unfold R, sref. rewrite ref_from_other; [assumption|].
+  intros vx Hin. apply In_nth_error in Hin. destruct Hin as [k Hk]. eapply W2; eauto.
+Qed.
+
+(* the fixpoint equation of the sequential evaluation *)
+Lemma sref_fix : wf -> forall k vx outs, nth_error g k = Some vx -> res_outs vx (vertex_res f k vx R) = Some outs ->
+  forall j d x, nth_error (emits vx) j = Some d -> nth_error outs j = Some x -> R d = Some x.
+Proof.
+  intros (W0 & W1 & W2 & W3) k vx outs Hk Hres j d x Hd Hx.
+  destruct (nth_error_split g k Hk) as (g1 & g2 & Hg & Hlen).
+  assert (Hidx2 : forall i vx', nth_error g2 i = Some vx' -> nth_error g (k + S i) = Some vx').
+  { intros i vx' Hi. rewrite Hg, <- Hlen. rewrite nth_error_app_len. exact Hi. }
+  set (ek := ref_from f 0 g1 (preset_env pre)).
+  set (e' := match res_outs vx (vertex_res f k vx ek) with None => ek | Some o => bind_outs ek (emits vx) o end).
+  assert (HR : R = ref_from f (S k) g2 e').
+  { unfold R, sref. rewrite Hg, ref_from_app. cbn [ref_from]. rewrite Hlen. reflexivity. }
+  (* data not emitted by vx or a later vertex keep their value *)
+  assert (Hkeep : forall d0, ~ In d0 (emits vx) -> (forall i vx', nth_error g2 i = Some vx' -> ~ In d0 (emits vx')) -> R d0 = ek d0).
+  { intros d0 Hn1 Hn2. rewrite HR, ref_from_other.
+    - unfold e'. destruct (res_outs vx (vertex_res f k vx ek)); [now apply bind_outs_other | reflexivity].
+    - intros vx' Hin. apply In_nth_error in Hin. destruct Hin as [i Hi]. eapply Hn2; eauto. }
+  assert (Hsame : vertex_res f k vx R = vertex_res f k vx ek).
+  { apply vertex_res_ext. intros dp Hdp. split.
+    - apply Hkeep.
+      + exact (proj1 (W3 k vx dp Hk Hdp k vx Hk (le_n k))).
+      + intros i vx' Hi. apply (proj1 (W3 k vx dp Hk Hdp (k + S i)%nat vx' (Hidx2 i vx' Hi) ltac:(lia))).
+    - intros c ev Hc. apply Hkeep.
+      + exact (proj2 (W3 k vx dp Hk Hdp k vx Hk (le_n k)) c ev Hc).
+      + intros i vx' Hi. apply (proj2 (W3 k vx dp Hk Hdp (k + S i)%nat vx' (Hidx2 i vx' Hi) ltac:(lia)) c ev Hc). }
+  rewrite Hsame in Hres.
+  rewrite HR, ref_from_other.
+  - unfold e'. rewrite Hres. eapply bind_outs_nth; eauto.
+  - intros vx' Hin Hd'. apply In_nth_error in Hin. destruct Hin as [i Hi].
+    assert (k = (k + S i)%nat) by (eapply W1; eauto using nth_error_In). lia.
+Qed.
+
+(* ---- invariants of the engine ---- *)
+Notation estep' := (estep f g pre targets).
+Notation erun' := (erun f g pre targets).
+
+Definition einv (s : est_) : Prop :=
+  (forall d x, dv s d = Some x -> taint s d = false -> R d = Some x) /\
+  (forall d, taint s d = true -> fin s <> None) /\
+  (forall v r, ran s v = Some r ->
+     match r with
+     | VBlocked => False
+     | VLate => fin s <> None
+     | _ => exists vx, nth_error g v = Some vx /\ vertex_res f v vx R = r /\ Needed v
+     end) /\
+  (fin s = Some 0 -> forall t, In t targets -> exists x, dv s t = Some x /\ taint s t = false) /\
+  (fin s = None -> (forall d, trig s d = true -> Want d) /\ (forall v, act s v = true -> Needed v)) /\
+  (forall d, nrel s d = match dv s d with Some _ => 1%nat | None => 0%nat end).
+
+Lemma einv_init : einv einit.
+Proof. unfold einv, einit; cbn. repeat split; intros; try discriminate. Qed.
+
+Lemma einv_seal : forall s d x t, einv s -> dv s d = None -> (t = false -> R d = Some x) -> (t = true -> fin s <> None) ->
+  einv (seal s d x t).
+Proof.
+  intros s d x t (J1 & J2 & J3 & J4 & J5 & J6) Hn Hv Ht. unfold einv, seal; cbn [dv trig act ran fin taint nrel].
+  split; [|split; [|split; [|split; [|split]]]].
+  - intros d' x' Hd Htn. destruct (Nat.eq_dec d' d) as [->|Hne].
+    + rewrite eupd_same in Hd. rewrite bupd_same in Htn. inversion Hd; subst. now apply Hv.
+    + rewrite eupd_other in Hd by assumption. rewrite bupd_other in Htn by assumption. now apply J1.
+  - intros d' Htn. destruct (Nat.eq_dec d' d) as [->|Hne].
+    + rewrite bupd_same in Htn. now apply Ht.
+    + rewrite bupd_other in Htn by assumption. exact (J2 d' Htn).
+  - exact J3.
+  - intros Hf t0 Hin. destruct (J4 Hf t0 Hin) as [x0 [Hx0 Ht0]].
+    assert (t0 <> d) by (intro; subst; congruence).
+    exists x0. rewrite eupd_other, bupd_other by assumption. tauto.
+  - exact J5.
+  - intro d'. destruct (Nat.eq_dec d' d) as [->|Hne].
+    + rewrite bupd_same, eupd_same, J6, Hn. reflexivity.
+    + rewrite bupd_other, eupd_other by assumption. apply J6.
+Qed.
+
+Lemma einv_trig : forall s d, einv s -> (fin s = None -> Want d) -> einv (set_trig s d).
+Proof.
+  intros s d (J1 & J2 & J3 & J4 & J5 & J6) Hw. unfold einv, set_trig; cbn [dv trig act ran fin taint nrel].
+  split; [exact J1|]. split; [exact J2|]. split; [exact J3|]. split; [exact J4|]. split; [|exact J6].
+  intro Hf. destruct (J5 Hf) as [K1 K2]. split; [|exact K2].
+  intros d' Hd. destruct (Nat.eq_dec d' d) as [->|Hne]; [now apply Hw|]. rewrite bupd_other in Hd by assumption. now apply K1.
+Qed.
+
+Lemma untainted : forall s, einv s -> fin s = None -> forall d x, dv s d = Some x -> R d = Some x.
+Proof.
+  intros s (J1 & J2 & _) Hf d x Hd. apply J1; [assumption|].
+  destruct (taint s d) eqn:E; [|reflexivity]. exfalso. now apply (J2 d E).
+Qed.
+
+Lemma einv_step : wf -> forall s e s', einv s -> estep' s e = Some s' -> einv s'.
+Proof.
+  intros Hwf s e s' Hinv Hst. pose proof Hinv as (J1 & J2 & J3 & J4 & J5 & J6).
+  destruct e as [d | d | v | v i | v | v j | |]; cbn [estep] in Hst.
+  - (* EInject *)
+    destruct (dv s d) eqn:Ed; [discriminate|]. destruct (preset_env pre d) as [x|] eqn:Ep; [|discriminate].
+    destruct (producer_of g d); [discriminate|]. inversion Hst; subst s'.
+    apply einv_seal; try assumption; [intros _; now apply sref_preset | discriminate].
+  - (* EWant *)
+    destruct (nmem d targets) eqn:Em; [|discriminate]. inversion Hst; subst s'.
+    apply einv_trig; [assumption|]. intros _. apply W_target. now apply nmem_in.
+  - (* EAct *)
+    destruct (nth_error g v) as [vx|] eqn:Ev; [|discriminate].
+    destruct (negb (act s v) && existsb _ (emits vx)) eqn:G; [|discriminate]. inversion Hst; subst s'; clear Hst.
+    apply andb_prop in G. destruct G as [_ G]. apply existsb_exists in G. destruct G as [d [Hd Ht]].
+    apply andb_prop in Ht. destruct Ht as [Ht _].
+    unfold einv; cbn [dv trig act ran fin taint nrel].
+    split; [exact J1|]. split; [exact J2|]. split; [exact J3|]. split; [exact J4|]. split; [|exact J6].
+    intro Hf. destruct (J5 Hf) as [K1 K2]. split; [exact K1|].
+    intros v' Hv'. destruct (Nat.eq_dec v' v) as [->|Hne].
+    + eapply N_emit; eauto.
+    + rewrite bupd_other in Hv' by assumption. now apply K2.
+  - (* EDepTrig *)
+    destruct (nth_error g v) as [vx|] eqn:Ev; [|discriminate]. destruct (act s v) eqn:Ea; [|discriminate].
+    destruct (nth_error (deps vx) i) as [dp|] eqn:Ei; [|discriminate]. apply nth_error_In in Ei.
+    destruct (cnd dp) as [[c ev]|] eqn:Ec.
+    + destruct (dv s c) as [x|] eqn:Edc.
+      * destruct (Bool.eqb (truthy x) ev) eqn:Ee; [|discriminate]. inversion Hst; subst s'.
+        apply einv_trig; [assumption|]. intro Hf. destruct (J5 Hf) as [_ K2].
+        eapply W_est; eauto. eapply untainted; eauto.
+      * inversion Hst; subst s'. apply einv_trig; [assumption|]. intro Hf. destruct (J5 Hf) as [_ K2]. eapply W_cond; eauto.
+    + inversion Hst; subst s'. apply einv_trig; [assumption|]. intro Hf. destruct (J5 Hf) as [_ K2]. eapply W_plain; eauto.
+  - (* EInvoke *)
+    destruct (nth_error g v) as [vx|] eqn:Ev; [|discriminate]. destruct (ran s v) eqn:Er; [discriminate|].
+    destruct (act s v) eqn:Ea; [|discriminate].
+    destruct (fin s) as [code|] eqn:Ef.
+    + (* late: flush only *)
+      assert (Hs' : s' = {| dv := dv s; trig := trig s; act := act s; ran := bupd (ran s) v (Some VLate); fin := Some code;
+                            taint := taint s; nrel := nrel s |}).
+      { destruct (vertex_res f v vx (dv s)); [discriminate | | | |]; inversion Hst; reflexivity. }
+      subst s'. unfold einv; cbn [dv trig act ran fin taint nrel].
+      split; [exact J1|]. split; [exact J2|]. split; [|split; [exact J4|split; [exact J5 | exact J6]]].
+      intros v' r Hr. destruct (Nat.eq_dec v' v) as [->|Hne].
+      * rewrite bupd_same in Hr. inversion Hr; subst. discriminate.
+      * rewrite bupd_other in Hr by assumption. now apply J3.
+    + assert (Hle : forall d x, dv s d = Some x -> R d = Some x) by (intros; eapply untainted; eauto).
+      destruct (J5 eq_refl) as [K1 K2].
+      destruct (vertex_res f v vx (dv s)) as [| | | |ins outs] eqn:Evr; [discriminate| | | |];
+        inversion Hst; subst s'; clear Hst; unfold einv; cbn [dv trig act ran fin taint nrel];
+        (split; [exact J1|]; split; [intros d Hd; exfalso; now apply (J2 d Hd)|]; split; [|split; [|split; [|exact J6]]]);
+        try (intros v' r Hr; destruct (Nat.eq_dec v' v) as [->|Hne];
+             [ rewrite bupd_same in Hr; inversion Hr; subst; exists vx; split; [assumption|]; split; [|now apply K2];
+               rewrite <- Evr; apply vertex_res_mono; [assumption | congruence]
+             | rewrite bupd_other in Hr by assumption; specialize (J3 v' r Hr); destruct r; try assumption; congruence ]);
+        try (intro Hx; discriminate); try (intros _; split; assumption).
+      (* VLate cannot be the result of vertex_res *)
+      all: try (unfold vertex_res in Evr; destruct (views (dv s) (deps vx)); [destruct (ess_failed _ _); [discriminate|]; destruct (f v _); discriminate | discriminate]).
+  - (* ERel *)
+    destruct (nth_error g v) as [vx|] eqn:Ev; [|discriminate]. destruct (ran s v) as [r|] eqn:Er; [|discriminate].
+    destruct (res_outs vx r) as [outs|] eqn:Eo; [|discriminate].
+    destruct (nth_error (emits vx) j) as [d|] eqn:Ed; [|discriminate].
+    destruct (nth_error outs j) as [x|] eqn:Ex; [|discriminate]. destruct (dv s d) eqn:Edv; [discriminate|].
+    inversion Hst; subst s'; clear Hst. specialize (J3 v r Er).
+    apply einv_seal; try assumption.
+    + intro Hl. destruct r; try discriminate.
+      * destruct J3 as (vx' & Hvx' & Hres & _). rewrite Ev in Hvx'. inversion Hvx'; subst vx'.
+        eapply sref_fix; eauto. now rewrite Hres.
+      * destruct J3 as (vx' & Hvx' & Hres & _). rewrite Ev in Hvx'. inversion Hvx'; subst vx'.
+        eapply sref_fix; eauto. now rewrite Hres.
+    + intro Hl. destruct r; try discriminate. exact J3.
+  - (* EFinish0 *)
+    destruct (fin s) eqn:Ef; [discriminate|]. destruct (forallb _ targets) eqn:Ea; [|discriminate].
+    inversion Hst; subst s'; clear Hst. unfold einv; cbn [dv trig act ran fin taint nrel].
+    split; [exact J1|]. split; [discriminate|]. split; [|split; [|split; [discriminate | exact J6]]].
+    + intros v r Hr. specialize (J3 v r Hr). destruct r; try assumption. discriminate.
+    + intros _ t Ht. rewrite forallb_forall in Ea. specialize (Ea t Ht). destruct (dv s t) as [x|] eqn:Et; [|discriminate].
+      exists x. split; [reflexivity|]. destruct (taint s t) eqn:E; [|reflexivity]. exfalso. now apply (J2 t E).
+  - (* EFinishErr *)
+    destruct (fin s) eqn:Ef; [discriminate|]. inversion Hst; subst s'; clear Hst. unfold einv; cbn [dv trig act ran fin taint nrel].
+    split; [exact J1|]. split; [discriminate|]. split; [|split; [discriminate|split; [discriminate | exact J6]]].
+    intros v r Hr. specialize (J3 v r Hr). destruct r; try assumption. discriminate.
+Qed.
+
+Lemma einv_run : wf -> forall l s, einv s -> einv (erun' s l).
+Proof.
+  intros Hwf l. induction l as [|e r IH]; intros s Hs; cbn [erun]; [assumption|].
+  apply IH. destruct (estep' s e) as [s'|] eqn:E; [eapply einv_step; eauto | assumption].
+Qed.
+
+Theorem af_value_eq_sequential : wf -> forall l, let s := erun' einit l in
+  fin s = Some 0 -> forall t, In t targets -> exists x, dv s t = Some x /\ R t = Some x.
+Proof.
+  intros Hwf l s Hf t Ht. subst s. destruct (einv_run Hwf l _ einv_init) as (J1 & _ & _ & J4 & _).
+  destruct (J4 Hf t Ht) as [x [Hx Htn]]. exists x. split; [assumption | now apply J1].
+Qed.
+
+Theorem af_inputs_eq_sequential : wf -> forall l v ins outs, let s := erun' einit l in
+  ran s v = Some (VRun ins outs) -> exists vx, nth_error g v = Some vx /\ vertex_res f v vx R = VRun ins outs.
+Proof.
+  intros Hwf l v ins outs s Hr. subst s. destruct (einv_run Hwf l _ einv_init) as (_ & _ & J3 & _).
+  destruct (J3 _ _ Hr) as (vx & Hvx & Hres & _). eauto.
+Qed.
+
+Theorem af_only_needed : wf -> forall l v r, let s := erun' einit l in
+  ran s v = Some r -> r <> VLate -> Needed v.
+Proof.
+  intros Hwf l v r s Hr Hl. subst s. destruct (einv_run Hwf l _ einv_init) as (_ & _ & J3 & _).
+  specialize (J3 _ _ Hr). destruct r; try contradiction; destruct J3 as (_ & _ & _ & N); exact N.
+Qed.
+
+Lemma estep_dv_mono : forall s e s' d x, estep' s e = Some s' -> dv s d = Some x -> dv s' d = Some x.
+Proof.
+  intros s e s' d x Hst Hd.
+  assert (Hseal : forall d0 x0 t, dv s d0 = None -> dv (seal s d0 x0 t) d = Some x).
+  { intros d0 x0 t Hn. unfold seal; cbn [dv]. rewrite eupd_other; [assumption | intro; subst; congruence]. }
+  destruct e as [d0 | d0 | v | v i | v | v j | |]; cbn [estep] in Hst.
+  - destruct (dv s d0) eqn:E; [discriminate|]. destruct (preset_env pre d0); [|discriminate].
+    destruct (producer_of g d0); [discriminate|]. inversion Hst; subst. now apply Hseal.
+  - destruct (nmem d0 targets); inversion Hst; subst; assumption.
+  - destruct (nth_error g v); [|discriminate]. destruct (_ && _); inversion Hst; subst; assumption.
+  - destruct (nth_error g v) as [vx|]; [|discriminate]. destruct (act s v); [|discriminate].
+    destruct (nth_error (deps vx) i) as [dp|]; [|discriminate]. destruct (cnd dp) as [[c ev]|].
+    + destruct (dv s c); [destruct (Bool.eqb _ _)|]; inversion Hst; subst; assumption.
+    + inversion Hst; subst; assumption.
+  - destruct (nth_error g v) as [vx|]; [|discriminate]. destruct (ran s v); [discriminate|]. destruct (act s v); [|discriminate].
+    destruct (vertex_res f v vx (dv s)); inversion Hst; subst; assumption.
+  - destruct (nth_error g v) as [vx|]; [|discriminate]. destruct (ran s v) as [r|]; [|discriminate].
+    destruct (res_outs vx r); [|discriminate]. destruct (nth_error (emits vx) j) as [d0|]; [|discriminate].
+    destruct (nth_error _ j); [|discriminate]. destruct (dv s d0) eqn:E; [discriminate|]. inversion Hst; subst. now apply Hseal.
+  - destruct (fin s); [discriminate|]. destruct (forallb _ _); inversion Hst; subst; assumption.
+  - destruct (fin s); inversion Hst; subst; assumption.
+Qed.
+
+Theorem af_data_once : wf -> forall l d, let s := erun' einit l in
+  (nrel s d <= 1)%nat /\ (forall x l', dv s d = Some x -> dv (erun' s l') d = Some x).
+Proof.
+  intros Hwf l d s. subst s. split.
+  - destruct (einv_run Hwf l _ einv_init) as (_ & _ & _ & _ & _ & J6). rewrite J6. destruct (dv _ d); lia.
+  - intros x l'. generalize (erun' einit l). induction l' as [|e r IH]; intros s Hd; cbn [erun]; [assumption|].
+    apply IH. destruct (estep' s e) as [s'|] eqn:E; [eapply estep_dv_mono; eauto | assumption].
+Qed.
+End EngProofs.
+
+(* non-vacuity: a two-vertex graph with a conditional dependency, well-formed, and a schedule that finishes with success *)
+Definition ex_flags (v : nat) : bool * bool * nat := (false, false, 1%nat).
+Definition ex_g : graph :=
+  [ {| deps := []; emits := [1%nat] |};
+    {| deps := [ {| tgt := 1%nat; cnd := Some (0%nat, true); ess := false |} ]; emits := [2%nat] |} ].
+Definition ex_pre : list (nat * option Z) := [(0%nat, Some 1)].
+Definition ex_sched : list eev :=
+  [EInject 0; EWant 2; EAct 1; EDepTrig 1 0; EAct 0; EInvoke 0; ERel 0 0; EInvoke 1; ERel 1 0; EFinish0]%nat.
+
+Lemma nth_error_ex_g : forall k vx, nth_error ex_g k = Some vx ->
+  (k = 0%nat /\ vx = {| deps := []; emits := [1%nat] |}) \/
+  (k = 1%nat /\ vx = {| deps := [ {| tgt := 1%nat; cnd := Some (0%nat, true); ess := false |} ]; emits := [2%nat] |}).
+Proof.
+  intros k vx H. destruct k as [|[|k]]; simpl in H.
+  - left. inversion H. auto.
+  - right. inversion H. auto.
+  - destruct k; discriminate.
+Qed.
+
+Example af_wf_example : wf ex_g ex_pre.
+Proof.
+  unfold wf. split; [|split; [|split]].
+  - intros k vx H. destruct (nth_error_ex_g k vx H) as [[-> ->]|[-> ->]]; simpl; repeat constructor; simpl; tauto.
+  - intros k k' vx vx' d H H' Hd Hd'.
+    destruct (nth_error_ex_g k vx H) as [[-> ->]|[-> ->]]; destruct (nth_error_ex_g k' vx' H') as [[-> ->]|[-> ->]];
+      simpl in Hd, Hd'; try reflexivity; exfalso; lia.
+  - intros d x Hp k vx H. unfold preset_env, ex_pre in Hp. simpl in Hp.
+    destruct d as [|d]; [|discriminate].
+    destruct (nth_error_ex_g k vx H) as [[-> ->]|[-> ->]]; simpl; lia.
+  - intros k vx dp H Hdp k' vx' H' Hle.
+    destruct (nth_error_ex_g k vx H) as [[-> ->]|[-> ->]]; simpl in Hdp; [contradiction|].
+    destruct Hdp as [<-|[]]. cbn [tgt cnd].
+    destruct (nth_error_ex_g k' vx' H') as [[-> ->]|[-> ->]]; [lia|]. simpl. split; [lia|].
+    intros c ev Hc. inversion Hc; subst. lia.
+Qed.
+
+Example af_run_example :
+  let s := erun (proc_fn ex_flags) ex_g ex_pre [2%nat] (einit) ex_sched in
+  fin s = Some 0 /\ dv s 2%nat = Some None /\ ran s 0%nat = Some (VRun [] [Some 1]) /\
+  sref (proc_fn ex_flags) ex_g ex_pre 2%nat = Some None.
+Proof. vm_compute. repeat split; reflexivity. Qed.
